@@ -86,6 +86,12 @@ def run_case(mon, base, case, sh):
         bptoml = 'api = "0.10"\n[buildpack]\nid = "vp/composite"\nversion = "1.0.0"\n[[order]]\n[[order.group]]\nid = "a/b"\nversion = "1.0.0"\n'
         with open(os.path.join(src, "buildpack.toml"), "w") as f:
             f.write(bptoml)
+        if case["idx"] % 2 == 0 and case["missing"] is None:
+            # packaging again into the same destination: an older, longer package.toml and buildpack.toml are there already
+            with open(os.path.join(dest, "package.toml"), "w") as f:
+                f.write('[buildpack]\nuri = "."\n' + "".join('\n[[dependencies]]\nuri = "/stale/dependency/%d"\n' % i for i in range(30)))
+            with open(os.path.join(dest, "buildpack.toml"), "w") as f:
+                f.write("# stale\n" * 200)
         rep = mon.call({"op": "composite", "dir": src, "dest": dest, "map": [[k, v] for k, v in case["map"].items()]})
         sh.evaluations += 1
         out_path = os.path.join(dest, "package.toml")
